@@ -1,6 +1,9 @@
 /-
-  C10 (continued) — `step into N` executes exactly N instructions, as one big-step theorem
-  (`stepInto_exact`), by induction from `stepInto_iter` along the plain machine's trajectory.
+  C10 (continued) — the big-step statements, by induction from the one-iteration lemmas along the
+  plain machine's trajectory: `stepInto_exact` (`step into N` executes exactly N instructions),
+  `run_exact` and its corollaries `continue_exact`, `stepOver_exact` (`step` on a call executes the
+  whole subroutine and pauses at the following address), `stepOut_exact` (`step out` executes up to
+  and including the first RET/RETS).
 -/
 import Lace.Props.C10
 namespace Lace.C10
@@ -94,5 +97,183 @@ theorem stepInto_exact (env : Env) : ∀ (j : Nat) (c : Word) (d : Dbg) (m : Mac
       obtain ⟨h1, h2⟩ := ha1; subst h1 h2
       refine ⟨d1, pushExec (some m.pc) ex, by simp [runLoop, d1], by simp [pushExec], by simp [d1, ran], by simp [d1, ran, hb], ?_⟩
       simp [d1, ran, hc, hc0]
+
+
+/-! ### `continue`, `step` over a call, `step out`: big-step statements -/
+
+/-- statuses in which the loop keeps executing without reading commands -/
+def Running (env : Env) (m : Machine) (w : World) (j : Nat) (s : Status) : Prop :=
+  s = .cont ∨
+  (∃ ret, s = .stepOver ret ∧ ∀ i mi wi, i < j → After env m w i mi wi → mi.pc ≠ ret) ∨
+  (s = .finish ∧ ∀ i mi wi, i < j → After env m w i mi wi → sigOf (mi.read mi.pc) ≠ some .ret)
+
+theorem clear_of_nobp_at (d : Dbg) (m : Machine) (hb : bpGet d.bps m.pc = none)
+    (hbounds : Run.checkPcBounds m = .eq) (hh : sigOf (m.read m.pc) ≠ some .halt) : Clear d m :=
+  ⟨hbounds, hh, fun ha => by simp [C11.Armed, hb] at ha⟩
+
+theorem after_zero (env : Env) (m : Machine) (w : World) : After env m w 0 m w := by
+  simp [After, C09.plain, Run.loop]
+
+theorem after_shift (env : Env) (m m1 : Machine) (w w1 : World) (hb : Run.checkPcBounds m = .eq)
+    (hx : VM.execute env.stackOn env.minimal (m.read m.pc) (m.setPC (m.pc + 1)) w = .ok m1 w1)
+    (i : Nat) (mi : Machine) (wi : World) (h : After env m1 w1 i mi wi) : After env m w (i + 1) mi wi := by
+  unfold After; rw [C09.plain_step env i m w hb, hx]; exact h
+
+/-- **C10, big step for `continue`, `step` (over a call) and `step out`.**  While the plain machine
+keeps running, meets no breakpoint and no HALT, and the stop condition of the status is not met
+(`step`: PC = return address; `step out`: the instruction is RET/RETS), `j` iterations execute
+exactly the plain machine's next `j` instructions without reading a command, and the status
+stays what it was. -/
+theorem run_exact (env : Env) : ∀ (j : Nat) (d : Dbg) (m : Machine) (w : World) (ex : List Word)
+    (mj : Machine) (wj : World),
+    Running env m w j d.status →
+    (∀ i mi wi, i < j → After env m w i mi wi →
+      bpGet d.bps mi.pc = none ∧ sigOf (mi.read mi.pc) ≠ some .halt) →
+    After env m w j mj wj →
+    ∃ d' ex', runLoop env j true d m w ex = .fuel true d' mj wj ex' ∧ ex'.length = ex.length + j ∧
+      d'.ncmds = d.ncmds ∧ d'.bps = d.bps ∧ d'.status = d.status
+  | 0, d, m, w, ex, mj, wj, _, _, ha => by
+    simp [After, C09.plain, Run.loop] at ha
+    obtain ⟨h1, h2⟩ := ha; subst h1 h2
+    exact ⟨d, ex, rfl, rfl, rfl, rfl, rfl⟩
+  | j + 1, d, m, w, ex, mj, wj, hrun, hfree, ha => by
+    obtain ⟨hbounds, m1, w1, hx, ha1⟩ := after_succ env m w j mj wj ha
+    obtain ⟨hb0, hh0⟩ := hfree 0 m w (by omega) (after_zero env m w)
+    have hclear := clear_of_nobp_at d m hb0 hbounds hh0
+    let d1 := ran { d with curBp := none }
+    have hit : iter env true d m w = execOne env true d1 m w := by
+      rcases hrun with hs | ⟨ret, hs, hne⟩ | ⟨hs, hne⟩
+      · exact continue_iter env d m w hs hclear
+      · exact stepOver_iter env d m w ret hs hclear (hne 0 m w (by omega) (after_zero env m w))
+      · have := stepOut_iter env d m w hs hclear
+        rw [if_neg (hne 0 m w (by omega) (after_zero env m w))] at this
+        exact this
+    have hrun1 : Running env m1 w1 j d1.status := by
+      rcases hrun with hs | ⟨ret, hs, hne⟩ | ⟨hs, hne⟩
+      · exact Or.inl hs
+      · exact Or.inr (Or.inl ⟨ret, hs, fun i mi wi hi hai =>
+          hne (i + 1) mi wi (by omega) (after_shift env m m1 w w1 hbounds hx i mi wi hai)⟩)
+      · exact Or.inr (Or.inr ⟨hs, fun i mi wi hi hai =>
+          hne (i + 1) mi wi (by omega) (after_shift env m m1 w w1 hbounds hx i mi wi hai)⟩)
+    have hfree1 : ∀ i mi wi, i < j → After env m1 w1 i mi wi →
+        bpGet d1.bps mi.pc = none ∧ sigOf (mi.read mi.pc) ≠ some .halt := fun i mi wi hi hai =>
+      hfree (i + 1) mi wi (by omega) (after_shift env m m1 w w1 hbounds hx i mi wi hai)
+    obtain ⟨d', ex', hr, hl, hn, hb', hst⟩ :=
+      run_exact env j d1 m1 w1 (pushExec (some m.pc) ex) mj wj hrun1 hfree1 ha1
+    unfold runLoop
+    rw [hit]
+    simp only [execOne, hx]
+    exact ⟨d', ex', hr, by simp [pushExec] at hl; omega, hn, hb', hst⟩
+
+
+/-- Iterations compose: `a + b` iterations are `a` iterations followed by `b` more. -/
+theorem runLoop_add (env : Env) : ∀ (a b : Nat) (att : Bool) (d : Dbg) (m : Machine) (w : World) (ex : List Word)
+    (att' : Bool) (d' : Dbg) (m' : Machine) (w' : World) (ex' : List Word),
+    runLoop env a att d m w ex = .fuel att' d' m' w' ex' →
+    runLoop env (a + b) att d m w ex = runLoop env b att' d' m' w' ex'
+  | 0, b, att, d, m, w, ex, att', d', m', w', ex', h => by
+    simp only [runLoop] at h
+    injection h with h1 h2 h3 h4 h5
+    subst h1 h2 h3 h4 h5
+    simp
+  | a + 1, b, att, d, m, w, ex, att', d', m', w', ex', h => by
+    have e : a + 1 + b = (a + b) + 1 := by omega
+    rw [e]
+    unfold runLoop at h
+    rw [show runLoop env (a + b + 1) att d m w ex = (match iter env att d m w with
+      | .cont att d m w e => runLoop env (a + b) att d m w (pushExec e ex)
+      | .done att d m w => .done att d m w ex
+      | .exit c att d m w e => .exit c att d m w (pushExec e ex)
+      | .panic s => .panic s) from rfl]
+    cases hi : iter env att d m w with
+    | cont att1 d1 m1 w1 e1 =>
+      rw [hi] at h; simp only at h ⊢
+      exact runLoop_add env a b att1 d1 m1 w1 _ att' d' m' w' ex' h
+    | done _ _ _ _ => rw [hi] at h; cases h
+    | exit _ _ _ _ _ _ => rw [hi] at h; cases h
+    | panic _ => rw [hi] at h; cases h
+
+/-- The plain loop composes. -/
+theorem plain_add (env : Env) : ∀ (a b : Nat) (m : Machine) (w : World) (ma : Machine) (wa : World),
+    C09.plain env a m w = .fuel ma wa → C09.plain env (a + b) m w = C09.plain env b ma wa
+  | 0, b, m, w, ma, wa, h => by
+    simp only [C09.plain, Run.loop] at h
+    injection h with h1 h2
+    subst h1 h2
+    simp
+  | a + 1, b, m, w, ma, wa, h => by
+    have ha : After env m w (a + 1) ma wa := h
+    obtain ⟨hb, m1, w1, hx, ha1⟩ := after_succ env m w a ma wa ha
+    have e : a + 1 + b = (a + b) + 1 := by omega
+    rw [e, C09.plain_step env (a + b) m w hb, hx]
+    exact plain_add env a b m1 w1 ma wa ha1
+
+/-- **`continue`**: runs exactly as far as the plain machine goes while no breakpoint and no HALT
+is met, reading no command. -/
+theorem continue_exact (env : Env) (j : Nat) (d : Dbg) (m : Machine) (w : World) (ex : List Word)
+    (mj : Machine) (wj : World) (hs : d.status = .cont)
+    (hfree : ∀ i mi wi, i < j → After env m w i mi wi →
+      bpGet d.bps mi.pc = none ∧ sigOf (mi.read mi.pc) ≠ some .halt)
+    (ha : After env m w j mj wj) :
+    ∃ d' ex', runLoop env j true d m w ex = .fuel true d' mj wj ex' ∧ ex'.length = ex.length + j ∧
+      d'.ncmds = d.ncmds ∧ d'.status = .cont := by
+  obtain ⟨d', ex', h1, h2, h3, _, h5⟩ := run_exact env j d m w ex mj wj (Or.inl hs) hfree ha
+  exact ⟨d', ex', h1, h2, h3, by rw [h5, hs]⟩
+
+/-- **`step` over a call**: from status `StepOver{ret}` (what `step` sets up on JSR/JSRR/CALL,
+`cmd_step`), if the plain machine first has PC = `ret` after `j` instructions — the whole
+subroutine — with no breakpoint and no HALT on the way, then exactly those `j` instructions are
+executed, no command is read meanwhile, and the debugger then waits for a command at `ret` before
+executing anything else. -/
+theorem stepOver_exact (env : Env) (j : Nat) (d : Dbg) (m : Machine) (w : World) (ex : List Word)
+    (ret : Word) (mj : Machine) (wj : World) (hs : d.status = .stepOver ret)
+    (hfree : ∀ i mi wi, i < j → After env m w i mi wi →
+      bpGet d.bps mi.pc = none ∧ sigOf (mi.read mi.pc) ≠ some .halt)
+    (hne : ∀ i mi wi, i < j → After env m w i mi wi → mi.pc ≠ ret)
+    (ha : After env m w j mj wj) (hret : mj.pc = ret)
+    (hbj : bpGet d.bps mj.pc = none) (hboundsj : Run.checkPcBounds mj = .eq)
+    (hhj : sigOf (mj.read mj.pc) ≠ some .halt) :
+    ∃ d' ex', runLoop env j true d m w ex = .fuel true d' mj wj ex' ∧ ex'.length = ex.length + j ∧
+      d'.ncmds = d.ncmds ∧
+      ∀ a d'' m'' w'', nextAction env d' mj wj = .action a d'' m'' w'' → d'.ncmds < d''.ncmds := by
+  obtain ⟨d', ex', h1, h2, h3, h4, h5⟩ :=
+    run_exact env j d m w ex mj wj (Or.inr (Or.inl ⟨ret, hs, hne⟩)) hfree ha
+  refine ⟨d', ex', h1, h2, h3, fun a d'' m'' w'' hn => ?_⟩
+  have hcl : Clear d' mj := clear_of_nobp_at d' mj (by rw [h4]; exact hbj) hboundsj hhj
+  exact stepOver_pauses env d' mj wj ret (by rw [h5, hs]) hcl hret a d'' m'' w'' hn
+
+/-- **`step out`**: from status `Finish`, if the first RET/RETS the plain machine meets is its
+`j`-th next instruction (no breakpoint, no HALT on the way), exactly `j + 1` instructions are
+executed — up to and including that return — no command is read, and the debugger is then
+waiting for a command. -/
+theorem stepOut_exact (env : Env) (j : Nat) (d : Dbg) (m : Machine) (w : World) (ex : List Word)
+    (mj mk : Machine) (wj wk : World) (hs : d.status = .finish)
+    (hfree : ∀ i mi wi, i < j + 1 → After env m w i mi wi →
+      bpGet d.bps mi.pc = none ∧ sigOf (mi.read mi.pc) ≠ some .halt)
+    (hne : ∀ i mi wi, i < j → After env m w i mi wi → sigOf (mi.read mi.pc) ≠ some .ret)
+    (ha : After env m w j mj wj) (hret : sigOf (mj.read mj.pc) = some .ret)
+    (hk : After env m w (j + 1) mk wk) :
+    ∃ d' ex', runLoop env (j + 1) true d m w ex = .fuel true d' mk wk ex' ∧
+      ex'.length = ex.length + j + 1 ∧ d'.ncmds = d.ncmds ∧ d'.status = .wait := by
+  obtain ⟨d1, ex1, h1, h2, h3, h4, h5⟩ :=
+    run_exact env j d m w ex mj wj (Or.inr (Or.inr ⟨hs, hne⟩))
+      (fun i mi wi hi hai => hfree i mi wi (by omega) hai) ha
+  rw [runLoop_add env j 1 true d m w ex true d1 mj wj ex1 h1]
+  obtain ⟨hbj, hhj⟩ := hfree j mj wj (by omega) ha
+  -- the plain machine's (j+1)-th state is one step from its j-th
+  have hstep : After env mj wj 1 mk wk := by
+    unfold After at ha hk ⊢
+    have := plain_add env j 1 m w mj wj ha
+    rw [this] at hk; exact hk
+  obtain ⟨hboundsj, m1, w1, hx, ha1⟩ := after_succ env mj wj 0 mk wk hstep
+  simp [After, C09.plain, Run.loop] at ha1
+  obtain ⟨e1, e2⟩ := ha1; subst e1 e2
+  have hcl : Clear d1 mj := clear_of_nobp_at d1 mj (by rw [h4]; exact hbj) hboundsj hhj
+  have hit := stepOut_iter env d1 mj wj (by rw [h5, hs]) hcl
+  rw [if_pos hret] at hit
+  unfold runLoop
+  rw [hit]
+  simp only [execOne, hx, runLoop]
+  refine ⟨_, _, rfl, by simp [pushExec]; omega, by simp [ran, say, h3], by simp [ran]⟩
 
 end Lace.C10
